@@ -237,17 +237,18 @@ def rule_exact(E, R):
         if not hh:
             R.cannot(rule, f2, "anchor not found")
             continue
-        t = tail(hh["body"])
-        ok = False
-        if t.get("k") == "Match":
-            sc = strip(t["scrut"])
-            via_get = sc.get("k") == "MethodCall" and norm(sc.get("callee", "")) == fn and is_param(sc["args"][0], hh, 1)
-            arms = t["arms"]
-            first = arms[0]["pat"] if arms else {}
-            inner = pat_variant(first["pats"][0]) if first.get("k") == "PTupleStruct" and first.get("pats") else None
-            acc = inner is not None and last_seg(inner) == good and norm(tail(arms[0]["body"]).get("callee", "")) == "core::result::Result::Ok"
-            rej = len(arms) == 2 and arms[1]["pat"].get("k") == "PWild" and bad in str(def_path(tail(arms[1]["body"]).get("args", [{}])[0]) if tail(arms[1]["body"]).get("args") else "")
-            ok = via_get and acc and rej
+        S2 = sem.Sem(E, hh, inline=False)
+        looks = [x for x in S2.sites() if x.node.get("k") == "MethodCall" and norm(x.node.get("callee", "")) == fn]
+        via_get = len(looks) == 1 and not looks[0].pc and is_param(looks[0].node["args"][0], hh, 1) and local_name(looks[0].node["recv"]) == "self"
+        leaves = S2.result_leaves()
+        oks = [x for x in leaves if norm(x.node.get("callee", "")) == "core::result::Result::Ok"]
+        errs = [x for x in leaves if norm(x.node.get("callee", "")) == "core::result::Result::Err"]
+        on_lookup = (lambda v: bool(looks) and sem.peel(v.node) is looks[0].node)
+        acc = bool(oks) and all(sem.nested_variants(x.pc, on_lookup, "Identifier") == {good} and
+                                sem.passes_through(S2, x.node["args"][0], x.frame, looks[0].node) for x in oks) if looks else False
+        rej = bool(errs) and len(oks) + len(errs) == len(leaves) and \
+            all(bad in str(def_path(x.node["args"][0]) or "") for x in errs)
+        ok = via_get and acc and rej
         R.check(ok, rule, f2, "accepts only a %s; anything else (other kind, unknown name) is %s" % (good.lower(), bad), where=hh["span"])
     # the identifier scanner
     fi = "<scheme::Identifier as lex::LexWith<&scheme::Scheme>>::lex_with"
